@@ -589,6 +589,7 @@ func (p *Builder) writeProfile(profile Profile, idx int, allowLabel string) {
 	actionLabels := map[string]string{
 		"allow":     allowLabel,
 		"deny":      "deny",
+		"log":       "log",
 		"pass":      "deny",
 		"next-tier": "deny",
 	}
